@@ -256,6 +256,23 @@ def gen_cases(tier, rng):
         {'kind': 'keyof', 'A': ('or', [obj({'a': (STR, False), 'b': (NUM, False)}), ('undef',)])},
         {'kind': 'keyof', 'A': ('or', [obj({'a': (STR, False), 'b': (NUM, False)}), NULL])},
     ]
+    # indexed access with a UNION of keys, some declared and some only admitted by an index signature; intersections with a Record
+    ix1 = obj({'a': (STR, False)}, ('or', [STR, NUM]))
+    ix2 = obj({'a': (BOOL, False), 'zzz': (lit('q'), False)})
+    ix3 = obj({'a': (lit(1), True), 'b': (NUM, False)}, ('or', [NUM, NULL]))
+    inter_rec = ('and', [obj({'id': (('or', [STR, NUM]), False), 'b': (NUM, False)}), obj({}, NUM)])
+    cases += [
+        {'kind': 'access', 'A': ('or', [ix1, ix2]), 'key': ['a', 'zzz']},
+        {'kind': 'access', 'A': ('or', [ix1, ix3]), 'key': ['a', 'b']},
+        {'kind': 'access', 'A': ('or', [ix1, ix3]), 'key': ['a', 'other']},
+        {'kind': 'access', 'A': ('or', [ix1, ix3]), 'key': ['b', 'other']},
+        {'kind': 'access', 'A': ('or', [ix1, ix3]), 'key': 'other'},
+        {'kind': 'access', 'A': ('or', [ix3, obj({'a': (STR, True), 'b': (STR, False), 'other': (BOOL, True)})]), 'key': ['a', 'other']},
+        {'kind': 'exclude', 'A': ('or', [inter_rec, STR]), 'B': STR},
+        {'kind': 'exclude', 'A': ('or', [inter_rec, obj({'k': (lit('x'), False)}), NULL]), 'B': NULL},
+        {'kind': 'access', 'A': ('or', [obj({'p': (inter_rec, False)}), obj({'p': (NUM, False), 'q': (STR, True)})]), 'key': 'p'},
+        {'kind': 'keyof', 'A': ('or', [inter_rec, obj({'id': (STR, False)})])},
+    ]
     # recursive operands / helper naming
     cases += [
         {'kind': 'exclude', 'A': ('or', [('ref', 'L1'), STR]), 'B': STR},
@@ -294,7 +311,8 @@ def case_source(c, i):
         return f'type R{i} = Exclude<{to_ts(c["A"])}, {to_ts(c["B"])}>;'
     if c['kind'] == 'keyof':
         return f'type T{i} = {to_ts(c["A"])};\ntype R{i} = keyof T{i};'
-    return f'type T{i} = {to_ts(c["A"])};\ntype R{i} = T{i}[{json.dumps(c["key"])}];'
+    keys = c['key'] if isinstance(c['key'], list) else [c['key']]
+    return f'type T{i} = {to_ts(c["A"])};\ntype R{i} = T{i}[{" | ".join(json.dumps(k) for k in keys)}];'
 
 
 def program_for(cases_idx):
@@ -476,7 +494,11 @@ def _check_case(i, c, resj):
             return sem.member(et, val, 'struct')
         bounds_types = [(et, NAMED), (got_t, env_ir)]
     else:
-        et = expected_access(A, c['key'], NAMED)
+        if isinstance(c['key'], list):
+            parts = [expected_access(A, k_, NAMED) for k_ in c['key']]
+            et = None if any(p_ is None for p_ in parts) else ('or', parts)
+        else:
+            et = expected_access(A, c['key'], NAMED)
         if et is None:
             return {'status': 'skipped', 'why': 'access undefined for some member'}
 
